@@ -72,7 +72,7 @@ CORRESPONDENCE (harness/c01.py `cycle_tie`, every generated sequential case, m =
 certificates `zeroCapB` (real `c_locs`), `capDriversB`, `forksOKB`, `wfB`, `orderOKB` (real order) per case.
 Still ORACLE / correspondence only: that the REAL tables equal the model tables `simopsMap` (exact correspondence, C08) — for real
 tables the certificate and `zeroCapB` are evaluated per case; the m = 4 / m = 8 `cycle(k)` of the real code against a specification
-(`cycle_iter_spec_m4/_m8` are theorems about the model; the real 4-/8-valued loop is tied to the model by `cycle_tie` only, the
+(`cycle_iter_spec_m4/_m8` are theorems about the model; the real 4- and 8-valued loop is tied to the model by `cycle_tie` only, the
 k-cycle ORACLE `eval2` is 2-valued);
 (a state element without output pin list has no (P)PI slot: `pippi_s_locs` skips it since fix 7a998c8 — before, `s_to_c` stored
 through `c_locs = -1` into the last memory row; the model follows the repaired table, `Cycle.ppiUsedS`, so (8) needs no side condition on it);
